@@ -58,6 +58,9 @@ def _p_solver(bounds, aitken):
 
 
 SOLVER_INST = [(f"{b},{'aitken' if k else 'plain'}", _p_solver(b, k)) for b in BOUNDS for k in (True, False)]
+import os as _os
+if _os.environ.get("NEWTON_ONLY"):          # debugging aid: restrict the solver contract to the instances named (';'-separated)
+    SOLVER_INST = [x for x in SOLVER_INST if x[0] in _os.environ["NEWTON_ONLY"].split(";")]
 
 
 # ---------------------------------------------------------------------------------------------- comparisons that know the infinite bounds
@@ -202,22 +205,30 @@ def _exit_from_locals(a, r):
     return Exit(r, it[2], it[1], fe[2], rb[0], rb[1], fb[0], fb[1], st.deref(loc["root_bounded"]), a._ghost.get("inv1.exit") == "break", _F)
 
 
-newton = Contract(
-    TARGET, instances=SOLVER_INST,
-    requires=REQUIRES,
-    ensures=[(label, (lambda fn: lambda a, r: fn(a, _exit_from_locals(a, r)))(fn)) for label, fn in EXIT_CLAUSES],
-    raises={"ValueError": lambda a: True},
-    options={"loop_invariants": {lab: {1: SOLVER_LOOP} for lab, _ in SOLVER_INST},
-             "feasibility": "abstract", "max_paths": 6000, "merge_ifs": True, "expose_locals": True},
-)
-newton.loops = {1: SOLVER_LOOP}
+def solver_contract(instances=None, label=None):
+    """the exit contract for the named instances (default: the whole family); C11 verifies the family, C10 re-verifies the instance its call uses"""
+    inst = [x for x in SOLVER_INST if instances is None or x[0] in instances]
+    c = Contract(
+        TARGET, instances=inst,
+        requires=REQUIRES,
+        ensures=[(lab, (lambda fn: lambda a, r: fn(a, _exit_from_locals(a, r)))(fn)) for lab, fn in EXIT_CLAUSES],
+        raises={"ValueError": lambda a: True},
+        options={"loop_invariants": {lab: {1: SOLVER_LOOP} for lab, _ in inst},
+                 "feasibility": "abstract", "max_paths": 6000, "merge_ifs": True, "expose_locals": True},
+        **({"label": label} if label else {}),
+    )
+    c.loops = {1: SOLVER_LOOP}
+    return c
+
+
+newton = solver_contract()
 
 
 # ---------------------------------------------------------------------------------------------- the same contract at a call site
 def newton_at_call(ghost_key="solver_calls"):
     """`numba_newton_raphson` as proved above, used at a call site: REQUIRES are obligations on the actual arguments, EXIT_CLAUSES are assumed for fresh
     symbols (result, previous iterate, bracket, exit flags) and a fresh function symbol standing for x -> function(x, *function_arguments);
-    ValueError may escape.  Every call is recorded as (arguments, exit record) under `ghost_key`."""
+    ValueError may escape.  Every call is recorded as (raw arguments, exit record) under `ghost_key`."""
     from pyvc.verify import wrap as _wrap
 
     def result(mk, raw):
@@ -234,7 +245,7 @@ def newton_at_call(ghost_key="solver_calls"):
                  mk.real("f_bracket_hi"), mk.bool("bracketed"), mk.bool("left_by_convergence"), F)
         for label, fn in EXIT_CLAUSES:
             st.assume(_T.to_z3(fn(a, x)))
-        st.ghost[ghost_key] = st.ghost.get(ghost_key, ()) + ((a, x),)
+        st.ghost[ghost_key] = st.ghost.get(ghost_key, ()) + ((raw, x),)
         return r
     cc = CalleeContract(TARGET, result, assumed=False,
                         note="proved in contracts/newton_common.py (exit contract of numba_newton_raphson): preconditions are call-site obligations, "
